@@ -99,12 +99,15 @@ class Unit:
                     self._number_loops(d)
 
     def _number_loops(self, fn):
-        n = [0]
+        n, r = [0], [0]
 
         def walk(x):
             if x.get("kind") in ("ForStmt", "WhileStmt", "DoStmt"):
                 x["_loop_ordinal"] = n[0]
                 n[0] += 1
+            if x.get("kind") == "ReturnStmt":
+                x["_return_ordinal"] = r[0]
+                r[0] += 1
             for c in x.get("inner", []):
                 walk(c)
         walk(fn)
